@@ -232,6 +232,11 @@ class Repo:
             elif isinstance(c_, (ast.Attribute, ast.Name)) and isinstance(getattr(c_, 'ctx', None), ast.Load):
               names_called.add(c_.attr if isinstance(c_, ast.Attribute) else c_.id)       # passed as a value (map(self._f, xs))
       self.residual_helpers = {q_ for q_, f_ in self.functions.items() if q_ not in pinned and f_.name in names_called}
+      # class-level functions are indexed per class as well: include methods
+      for c_ in self.classes.values() if hasattr(self, 'classes') else ():
+        for f_ in c_.all_functions():
+          if f_.qualname not in pinned and f_.name in names_called:
+            self.residual_helpers.add(f_.qualname)
       from mmsa import lower
       self.lowered = lower.lower_repo(self)
       # the rewritten functions must still be well-formed Python: a malformed rewrite is a checker fault (exit 2)
